@@ -139,6 +139,9 @@ class Tree:
             ('out', 'percent_dots', '%2E%2E/out/' + n('out')),
             ('out', 'percent_slash', '..%2Fout%2F' + n('out')),
             ('out', 'via_sandbox_name', '../sand/../out/' + n('out')),
+            ('out', 'double_percent_dots', '%252e%252e/out/' + n('out')),
+            ('out', 'half_double_percent', '.%252E/out/' + n('out')),
+            ('out', 'double_percent_abs', 'file://' + os.path.join(self.sand, '%252e%252e', 'out', n('out'))),
             ('evil', 'relative', '../sand_evil/' + n('evil')),
             ('evil', 'absolute', T['evil']),
             ('evil', 'file_url', 'file://' + T['evil']),
